@@ -19,7 +19,8 @@ EXPLANATION = (
     "when violated; (R7) the unreachable!() cone methods are dead: guarded by is_symmetric, or unreachable from the API roots; (R7b) settings validator and dispatcher accept the same option strings; (R9) P is reduced to its upper triangle and the cone list collapsed before use; (R10) the progress printer reaches _exp_str_reformat (which unwraps find('e')) only on the true edge of is_finite(value); (R11) the QDLDL wrapper unwraps refactor() only while the engine's pivot regularisation is unconditionally on; (R12) who-may-write the status (re-run of the status provenance rule: a rollback or helper that resets it to Unsolved on a terminating path returns a non-terminal status); (R13) every index in the printing module is bounded by the indexed collection's own length. NOT decided: absence "
     "of all panics (bounds checks, arithmetic, BLAS failures), termination of data-dependent inner loops."
     " (R14) match arms that panic (unreachable!) on a variant of a crate function's result are dead: the callee never constructs that variant."
-    " (R15) no panicking std conversion (Duration::from_secs_f64/f32) is applied to a settings field; (R16) the cone clean-up keeps a cone only after the type-independent test nvars() != 0.")
+    " (R15) no panicking std conversion (Duration::from_secs_f64/f32) is applied to a settings field; (R16) the cone clean-up keeps a cone only after the type-independent test nvars() != 0."
+    " (R17) every checkpoint path returning Fail has set a terminal status or runs under status == InsufficientProgress.")
 ASSUMPTIONS = [
     'rustc MIR construction and trait resolution are correct',
     'iteration counter does not overflow u32 (max_iter is u32 and the loop stops at equality)',
@@ -875,6 +876,33 @@ def settings_conversions(rep, F, tag):
     R.guard(body)
 
 
+def fail_sets_status(rep, F, tag):
+    """The main loop leaves through `StrategyCheckpoint::Fail => break`; solve() then returns whatever status the info holds.  Every path of
+    a checkpoint that returns Fail must therefore have a terminal status in place: it sets one itself (NumericalError,
+    InsufficientProgress), or it is only taken when the status already is InsufficientProgress (the slow-progress checkpoint)."""
+    R = rep.rule('C04.R17', 'every checkpoint path that returns Fail has set a terminal status (or runs only under status == InsufficientProgress)')
+
+    def body():
+        n = 0
+        for f in F.fns:
+            if not (f.name.startswith('strategy_checkpoint_') and f.dk == 'AssocFn' and f.impl_self):
+                continue
+            for val, ret, ev, tr in Walker(f).leaves():
+                if ret[0] != 's' or not str(ret[1]).endswith('::Fail'):
+                    continue
+                n += 1
+                sets = [split_args(str(e[2]))[1] for e in ev if e[0] == 'call' and e[1] == 'set_status']
+                term = [x for x in sets if x.rsplit('::', 1)[-1] in ('NumericalError', 'InsufficientProgress', 'MaxIterations', 'MaxTime')]
+                under_ip = any((k in ('ne(SolverStatus::InsufficientProgress, get_status(self.info))', 'ne(get_status(self.info), SolverStatus::InsufficientProgress)') and v == 0)
+                               or (k in ('eq(SolverStatus::InsufficientProgress, get_status(self.info))', 'eq(get_status(self.info), SolverStatus::InsufficientProgress)') and v == 1) for k, v in val.items())
+                R.check(bool(term) or under_ip, 'fail-has-status|%s|%s%s' % (f.name, sorted(v for v in val.values()), tag),
+                        '%s returns Fail under %s without setting a terminal status (set_status calls on the path: %s): the loop breaks and solve() returns Unsolved' % (
+                            f.name, {k[:50]: v for k, v in val.items()}, sets), f.loc())
+        R.check(n >= 6, 'paths' + tag, 'only %d Fail-returning checkpoint paths analysed' % n)
+
+    R.guard(body)
+
+
 def run(ctx, rep, tier):
     for cfg in CONFIGS:
         F = ctx.facts(cfg)
@@ -895,6 +923,7 @@ def run(ctx, rep, tier):
         dead_match_arms(rep, F, G, tag)
         settings_conversions(rep, F, tag)
         empty_cones_dropped(rep, F, tag)
+        fail_sets_status(rep, F, tag)
         shared.status_provenance(rep, F, E, tag, 'C04.R12', statuses=('Solved',), full_fn='check_convergence_full', slot=9)
         # degenerate cones (empty, singleton) are collapsed before anything else sees the cone list
         from . import c05
